@@ -2,7 +2,8 @@
 //!
 //! value side : every value of the structural generators (and values produced by blinding):
 //!              encoder-reported length == bytes written; decode(encode(v)) == v;
-//!              decode_partial(encode(v) ++ junk) == (v, len).
+//!              decode_partial(encode(v) ++ junk) == (v, len); the same under environment deviations
+//!              (short writes, short reads, a writer that fills up at every byte position).
 //! byte side  : every string at <= d deviations from each valid encoding, and all short strings:
 //!              decode(b) == Ok(v)  ==>  encode(v) == b  (and partial decode consumed exactly the
 //!              re-encoded prefix).
@@ -19,6 +20,77 @@ pub const TYPES: [&str; 16] = [
     "Transaction", "TxIn", "TxOut", "Block", "BlockHeader", "Params", "FullParams", "Asset", "Value", "Nonce",
     "TxInWitness", "TxOutWitness", "AssetIssuance", "OutPoint", "Script", "LockTime",
 ];
+
+/// Environment deviations for the encoder / decoder: an `io::Write` may legally accept fewer bytes than offered
+/// (short write) and an `io::Read` may legally return fewer bytes than asked for (short read); a writer that is full
+/// answers `Ok(0)`. The statement "the length reported by the encoder equals the number of bytes written" and the
+/// decode(encode(v)) == v round trip must hold under every such answer pattern of the environment.
+struct ChunkWriter {
+    buf: Vec<u8>,
+    chunk: usize,
+    cap: usize,
+}
+impl std::io::Write for ChunkWriter {
+    fn write(&mut self, b: &[u8]) -> std::io::Result<usize> {
+        let n = b.len().min(self.chunk).min(self.cap - self.buf.len());
+        self.buf.extend_from_slice(&b[..n]);
+        Ok(n)
+    }
+    fn flush(&mut self) -> std::io::Result<()> {
+        Ok(())
+    }
+}
+struct ChunkReader<'a> {
+    data: &'a [u8],
+    pos: usize,
+    chunk: usize,
+}
+impl std::io::Read for ChunkReader<'_> {
+    fn read(&mut self, out: &mut [u8]) -> std::io::Result<usize> {
+        let n = out.len().min(self.chunk).min(self.data.len() - self.pos);
+        out[..n].copy_from_slice(&self.data[self.pos..self.pos + n]);
+        self.pos += n;
+        Ok(n)
+    }
+}
+
+/// returns an error text if the encoder / decoder misbehaves under short writes, short reads or a full writer
+fn environment_deviations<T: Encodable + Decodable + PartialEq + Debug>(v: &T, b: &[u8]) -> Result<u64, String> {
+    let mut n_runs = 0u64;
+    for chunk in [1usize, 3, 64] {
+        let mut w = ChunkWriter { buf: Vec::new(), chunk, cap: usize::MAX };
+        let n = v.consensus_encode(&mut w).map_err(|e| format!("short-write/{}: encode error {:?}", chunk, e))?;
+        n_runs += 1;
+        if n != w.buf.len() || w.buf != b {
+            return Err(format!("short-write: with a writer accepting {} byte(s) per call the encoder reported {} bytes, {} were written ({} expected)", chunk, n, w.buf.len(), b.len()));
+        }
+        let mut rd = ChunkReader { data: b, pos: 0, chunk };
+        n_runs += 1;
+        match T::consensus_decode(&mut rd) {
+            Ok(v2) => {
+                if &v2 != v || rd.pos != b.len() {
+                    return Err(format!("short-read: with a reader returning {} byte(s) per call the decoder produced a different value or consumed {} of {}", chunk, rd.pos, b.len()));
+                }
+            }
+            Err(e) => return Err(format!("short-read: with a reader returning {} byte(s) per call decoding failed: {:?}", chunk, e)),
+        }
+    }
+    // a writer that fills up after `cap` bytes: the encoder must report an error, or exactly what was written
+    let caps: Vec<usize> = if b.len() <= 160 { (0..b.len()).collect() } else { (0..40).chain(b.len() - 40..b.len()).chain((40..b.len() - 40).step_by(b.len() / 40 + 1)).collect() };
+    for cap in caps {
+        let mut w = ChunkWriter { buf: Vec::new(), chunk: usize::MAX, cap };
+        n_runs += 1;
+        if let Ok(n) = v.consensus_encode(&mut w) {
+            if n != w.buf.len() {
+                return Err(format!("full-writer: writer full after {} bytes, encoder returned Ok({}) although {} bytes were written", cap, n, w.buf.len()));
+            }
+        }
+        if w.buf[..] != b[..w.buf.len()] {
+            return Err(format!("full-writer: bytes written before the writer filled up at {} are not a prefix of the encoding", cap));
+        }
+    }
+    Ok(n_runs)
+}
 
 /// value-side oracle for one value
 fn value_side<T: Encodable + Decodable + PartialEq + Debug>(r: &Report, ty: &'static str, v: &T, expect_ref: Option<&[u8]>) -> Option<Vec<u8>> {
@@ -51,6 +123,10 @@ fn value_side<T: Encodable + Decodable + PartialEq + Debug>(r: &Report, ty: &'st
                 }
             }
             Err(e) => return Err(format!("partial decode failed: {:?}", e)),
+        }
+        if b.len() <= 20_000 {
+            let n = environment_deviations(v, &b)?;
+            r.trans(n);
         }
         Ok(b)
     });
@@ -181,7 +257,8 @@ pub fn run(r: &Report) {
     r.set_rule(&format!(
         "value side: complete products of the structural generators (64 witness-presence classes x positions, 6 input kinds, \
          null/explicit/confidential fields with both parity prefixes, legacy/dynafed headers with null/compact/full params, \
-         varint boundaries 252/253/65535/65536{}), plus blinder outputs; byte side: every string at 1 deviation from each distinct \
+         varint boundaries 252/253/65535/65536{}), plus blinder outputs, each also under environment deviations (writers accepting 1/3/64 bytes \
+         per call, readers returning 1/3/64 bytes per call, a writer that fills up at every byte position); byte side: every string at 1 deviation from each distinct \
          encoding (substitution menu, truncation, extension, insertion, deletion, non-minimal varint rewrite, huge length) — all \
          positions for encodings <= 420 bytes, windowed otherwise; every length / count field of EVERY transaction / block / header encoding \
          (via the reference parse tree) rewritten to each non-minimal width and to value +-1 — 2 deviations for encodings <= {} bytes, and all strings of \
